@@ -735,4 +735,20 @@ def py_sorted(I, x, key, reverse):
     raise Unsupported("sorted() with symbolic keys (needs contract)")
 
 
+@model("time.time")
+def py_time():
+    """time(): an arbitrary non-decreasing clock"""
+    c = ctx()
+    if c.concrete:
+        import time as _t
+        return _t.time()
+    t = c.fresh("clock", "Real")
+    last = c.uf_cache.get("clock_last")
+    if last is not None:
+        c.defs.append(t >= last)
+    c.uf_cache["clock_last"] = t
+    c.trace.append(("clock", t))
+    return Sym(t)
+
+
 install_types()
